@@ -513,3 +513,55 @@ Theorem C11_source_level_write_first_refuted :
   /\ source_cleanup sk_write_first = Some write_first_cleanup.
 Proof. exact source_level_write_first_refuted. Qed.
 Print Assumptions C11_source_level_write_first_refuted.
+
+(** ---- Round 9: the IMAGE's close() at any position of a history (model/ImgIterClose.v,
+    proofs/ImgIterCloseProofs.v).  Operations: ImageIterator(image) (any number of iterators over
+    one image), next() (on a finalized image: yields or fails, as the environment decides),
+    iterator.close(), image.close(); source kinds file / URL / caller's PIL image.  The model is the
+    code AFTER pending_fixes/C11_iterator_close_after_image_close.diff. ---- *)
+From TI Require Import model.ImgIterClose proofs.ImgIterCloseProofs.
+
+(** after an explicit close() of every object the history created -- the image and every iterator,
+    in any order, at any positions, whatever else happens in between -- and BEFORE anything is
+    dropped or collected: no file opened by the library is open, the URL temp copy is gone, the
+    caller's PIL image has not been closed *)
+Theorem C11_close_order_irrelevant : forall k h,
+  all_closed h = true ->
+  let s := run DFixed k h in
+  files_open s = 0%nat /\ tmp_exists k s = false /\ caller_closed s = false.
+Proof. exact close_order_irrelevant. Qed.
+Print Assumptions C11_close_order_irrelevant.
+
+(** for EVERY history (closed or not): the caller's PIL image is never closed *)
+Theorem C11_caller_image_never_closed : forall k h, caller_closed (run DFixed k h) = false.
+Proof. exact caller_image_untouched. Qed.
+Print Assumptions C11_caller_image_never_closed.
+
+(** for EVERY history and design: the temp copy of a URL source exists exactly while image.close()
+    has not been called, whatever the iterators do *)
+Theorem C11_temp_copy_iff_image_open : forall d k h,
+  tmp_exists k (run d k h) = is_url k && negb (img_closed h).
+Proof. exact temp_copy_iff_image_open. Qed.
+Print Assumptions C11_temp_copy_iff_image_open.
+
+(** the three designs differ only once the image is finalized before one of its iterators *)
+Theorem C11_designs_agree_without_finalization : forall d k h s,
+  fin s = false -> img_closed h = false -> run_from d k s h = run_from DFixed k s h.
+Proof. exact designs_agree_without_finalization. Qed.
+Print Assumptions C11_designs_agree_without_finalization.
+
+(** excluded designs.  Release through the finalized image's [_source] test (the code before the
+    fix): image.close(); iterator.close() leaves the iterator's file open for file and URL sources *)
+Theorem C11_close_through_source_test_refuted :
+  exists h, all_closed h = true
+    /\ files_open (run DSourceTest KFile h) = 1%nat /\ files_open (run DSourceTest KUrl h) = 1%nat
+    /\ files_open (run DFixed KFile h) = 0%nat.
+Proof. exact source_test_close_leaks. Qed.
+Print Assumptions C11_close_through_source_test_refuted.
+
+(** [img is not getattr(image, "_source", None)]: no leak, but the caller's PIL image is closed *)
+Theorem C11_close_through_getattr_refuted :
+  exists h, all_closed h = true
+    /\ caller_closed (run DGetattr KPil h) = true /\ files_open (run DGetattr KFile h) = 0%nat.
+Proof. exact getattr_close_closes_caller_image. Qed.
+Print Assumptions C11_close_through_getattr_refuted.
